@@ -23,6 +23,8 @@ class l100(PseudoNetCDFFile):
         try:
             lines = cls._getmeta(path)
             mynames = lines[-2].split()
+            if len(mynames) < 8:
+                return False
             for chk, new in zip(_orignames[:8], mynames):
                 if chk != new:
                     return False
